@@ -13,6 +13,8 @@ pub struct Comparison {
     /// the payload as the source presents it (canonical for serde_json)
     pub seen: PV,
     pub reports: Result<(), String>,
+    /// the same comparison against the reports HELD BY THE RETURNED ERROR (by id, with multiplicity)
+    pub final_reports: Result<(), String>,
     /// unmatched predicted reports (class, location) and unmatched observed reports
     pub missing: Vec<(String, crate::pv::Path)>,
     pub extra: Vec<(String, crate::pv::Path)>,
@@ -36,6 +38,23 @@ pub fn compare(e: &Entry, payload: &PV, src: Src) -> Comparison {
             actual.iter().map(|(_, k, l)| format!("{} at {}", crate::trace::show_kind(k), path_str(l))).collect::<Vec<_>>().join("; ")
         )
     });
+    // what the final error holds
+    let held: Vec<(u32, &crate::trace::RKind, &crate::pv::Path)> = match &out.result {
+        Ok(_) => vec![],
+        Err(ids) => ids.iter().filter_map(|i| actual.iter().find(|(id, _, _)| id == i).copied()).collect(),
+    };
+    let final_rep = if out.panicked.is_some() {
+        Ok(())
+    } else {
+        crate::interp::match_reports(&pred.reports, &held).map_err(|why| {
+            format!(
+                "the returned error does not hold exactly one report per predicted fault: {why}; predicted: [{}]; held by the returned error: [{}]; result: {}",
+                pred.reports.iter().map(|p| format!("{:?} at {}", p.kind, path_str(&p.loc))).collect::<Vec<_>>().join("; "),
+                held.iter().map(|(_, k, l)| format!("{} at {}", crate::trace::show_kind(k), path_str(l))).collect::<Vec<_>>().join("; "),
+                if out.result.is_ok() { "Ok" } else { "Err" }
+            )
+        })
+    };
     let (mi, ex) = crate::interp::diff_reports(&pred.reports, &actual);
     let class_p = |k: &crate::interp::PKind| match k {
         crate::interp::PKind::Foreign(crate::trace::ProbeData::Missing { .. }) => "Foreign:Missing".to_string(),
@@ -109,5 +128,5 @@ pub fn compare(e: &Entry, payload: &PV, src: Src) -> Comparison {
             show(&actual_calls)
         ))
     };
-    Comparison { out, pred_value: pv, pred, seen, reports: rep, missing, extra, value, visits: vis, calls }
+    Comparison { out, pred_value: pv, pred, seen, reports: rep, final_reports: final_rep, missing, extra, value, visits: vis, calls }
 }
